@@ -10,14 +10,14 @@ import sys
 ROOT = os.path.dirname(os.path.dirname(os.path.abspath(__file__)))
 ALL = ["C%02d" % i for i in range(1, 21)]
 CROSS = {"C01-C": ["C08"], "C08-C": ["C02", "C06"], "C16-C": ["C04"], "C05-C": ["C19", "C15"], "C07-C": ["C19"], "C11-C": ["C06"], "C17-D": ["C02"], "C03-C": ["C12"], "C01-A": ["C07"], "C01-B": ["C08"], "C02-B": ["C06"], "C03-B": ["C05"], "C04-A": ["C10"], "C04-B": ["C12", "C20"], "C10-B": ["C04"],
-         "C12-B": ["C04", "C20"], "C16-A": ["C04"], "C19-B": ["C04"], "C20-A": ["C12", "C04"],
+         "C12-B": ["C04", "C20"], "C16-A": ["C04"], "C19-B": ["C04"], "C19-D": ["C04"], "C20-A": ["C12", "C04"],
          # round 3 (E = first, F = second change of the round)
          "C01-E": ["C08"], "C01-F": ["C08"], "C12-E": ["C13"], "C17-F": ["C09"], "C04-E": ["C10"], "C03-F": ["C04"], "C08-F": ["C04"], "C11-F": ["C04"],
          "C14-F": ["C04"], "C19-E": ["C01"], "C18-F": ["C20"]}
 THOROUGH_ONLY = {("C16-B", "C16"), ("C16-D", "C16"), ("C02-E", "C02")}   # C02-E: needs more than 2^24 evaluations in float
-# the MPI leg of C19 is validated by Trace_C04; C19-E / C19-F change the refinement functions themselves (the subject of C08 / C07),
+# C19-E / C19-F change the refinement functions themselves (the subject of C08 / C07),
 # which C19 takes as given (it checks that each iteration uses the refinement of the previous result)
-OWN_BY_OTHER = {"C19-B": "C04", "C19-D": "C04", "C19-E": "C08", "C19-F": "C07"}
+OWN_BY_OTHER = {"C19-E": "C08", "C19-F": "C07"}
 PREFIX = {"5240915": ["C15"], "ac56e79": ["C15"], "bb5946d": ["C12"], "08987f4": ["C09"], "47037e0": ["C07"], "dfee5c7": ["C08"],
           "84d9fba": ["C05", "C03"], "4d363c6": ["C18"], "d91dcdf": ["C11"], "1c25063": ["C07"], "7c3b427": ["C05", "C03"]}
 
